@@ -15,6 +15,7 @@ pub fn main_leg() -> i32 {
 	let rt = tokio::runtime::Builder::new_multi_thread().worker_threads(2).enable_all().build().expect("rt");
 	let seen: Arc<Mutex<Vec<String>>> = Arc::default();
 	let s2 = seen.clone();
+	let s3 = seen.clone();
 	let res: Result<(), String> = rt.block_on(async move {
 		let config = Config::default();
 		config.throttle(Duration::ZERO);
@@ -28,7 +29,13 @@ pub fn main_leg() -> i32 {
 		let main = wx.main();
 		tokio::time::sleep(Duration::from_millis(100)).await;
 		wx.config.keyboard_events(true);
-		tokio::time::sleep(Duration::from_millis(800)).await;
+		// wait (generously: the machine may be busy) until the event shows up, then a
+		// little longer to catch duplicates
+		let t0 = std::time::Instant::now();
+		while s3.lock().unwrap().is_empty() && t0.elapsed() < Duration::from_secs(20) {
+			tokio::time::sleep(Duration::from_millis(50)).await;
+		}
+		tokio::time::sleep(Duration::from_millis(400)).await;
 		// switching the source off and on again must not invent events
 		wx.config.keyboard_events(false);
 		tokio::time::sleep(Duration::from_millis(200)).await;
